@@ -51,6 +51,13 @@ type WDB struct {
 func WrapDB(inner mwdb.DB) *WDB { return &WDB{Inner: inner, done: map[string]int64{}} }
 
 func (d *WDB) Commits() int64 { return atomic.LoadInt64(&d.commits) }
+
+// Seq: number of wallet-database calls so far.
+func (d *WDB) Seq() int64 {
+	d.mu.Lock()
+	defer d.mu.Unlock()
+	return d.seq
+}
 func (d *WDB) Freeze()        { atomic.StoreInt32(&d.frozen, 1) }
 func (d *WDB) Frozen() bool   { return atomic.LoadInt32(&d.frozen) == 1 }
 
